@@ -126,3 +126,21 @@ b("c16-marker-err-wrap", ["C16","C04"], "util/resolve/pypi/markers.go", "\t\tc, 
 for x in B:
     json.dump({k: v for k, v in x.items() if k != "name"}, open(os.path.join("/verif/mutants/benign", x["name"] + ".json"), "w"), indent=1, ensure_ascii=False)
 print(len(B), "benign refactorings (total)")
+# C08 (claimed after the seeding rounds)
+M2 = []
+def m2(prop, name, file, old, new, expect="", note=""):
+    d = dict(name=name, file=file, old=old, new=new, expect_rule=expect, note=note)
+    os.makedirs(os.path.join("/verif/mutants", prop), exist_ok=True)
+    json.dump(d, open(os.path.join("/verif/mutants", prop, name + ".json"), "w"), indent=1, ensure_ascii=False)
+    M2.append(name)
+m2("C08","state-shares-criteria","util/resolve/pypi/resolve.go","\t\tcriteria: base.criteria.Copy(),","\t\tcriteria: base.criteria,","C08.a","new search state shares the criteria of the previous one")
+m2("C08","pop-keeps-map-entry","util/resolve/pypi/version_map.go","\tdelete(v.m, pkg)\n","","C08.b","Pop leaves the entry in the map")
+m2("C08","node-without-route","util/resolve/pypi/resolve.go","\t\tif !hasRouteToRoot(rc, v, connected, s) {\n\t\t\treturn\n\t\t}\n","","C08.c","disconnected pins become nodes")
+m2("C08","root-guard-weakened","util/resolve/pypi/resolve.go","\tif req.PackageKey != p.rootPackage {\n\t\treturn getVersionKeys(mvs), nil\n\t}\n\tfor _, mv := range mvs {","\tif req.PackageKey != p.rootPackage || len(mvs) > 3 {\n\t\treturn getVersionKeys(mvs), nil\n\t}\n\tfor _, mv := range mvs {","C08.d","root can be replaced when many versions match")
+m2("C08","clone-shares-stack","util/resolve/pypi/version_map.go","\t\tstack: append([]resolve.PackageKey(nil), v.stack...),","\t\tstack: v.stack,","C08.a","cloned pin table shares the insertion stack")
+m2("C08","edge-skipped","util/resolve/pypi/resolve.go","\t\t\trvk := req.VersionKey\n\t\t\tif err := g.AddEdge(from, to, rvk.Version, req.Type); err != nil {","\t\t\trvk := req.VersionKey\n\t\t\tif rvk.Version == \"\" && i > 0 {\n\t\t\t\tcontinue\n\t\t\t}\n\t\t\tif err := g.AddEdge(from, to, rvk.Version, req.Type); err != nil {","C08.c","unconstrained requirements after the first get no edge")
+b("c08-copy-shares-incompat", ["C08"], "util/resolve/pypi/resolve.go", "\t\tincompatibilities:  incompatibilities,\n\t\tcandidates:         c.candidates,", "\t\tincompatibilities:  c.incompatibilities,\n\t\tcandidates:         c.candidates,", note="the map is never updated in place today, so sharing it is harmless")
+b("c08-root-guard-positive", ["C08"], "util/resolve/pypi/resolve.go", "\tif req.PackageKey != p.rootPackage {\n\t\treturn getVersionKeys(mvs), nil\n\t}\n\tfor _, mv := range mvs {", "\tif req.PackageKey == p.rootPackage {\n\t\tfor _, mv := range mvs {\n\t\t\tif mv.VersionKey == p.rootVersion {\n\t\t\t\treturn []resolve.VersionKey{p.rootVersion}, nil\n\t\t\t}\n\t\t}\n\t\treturn nil, nil\n\t}\n\tif true {\n\t\treturn getVersionKeys(mvs), nil\n\t}\n\tfor _, mv := range mvs {", note="root test written positively")
+for x in B:
+    json.dump({k: v for k, v in x.items() if k != "name"}, open(os.path.join("/verif/mutants/benign", x["name"] + ".json"), "w"), indent=1, ensure_ascii=False)
+print(len(M2), "C08 mutants;", len(B), "benign total")
